@@ -18,13 +18,15 @@ CONSTANTS Family,      \* "src" | "dst" | "prog"
 
 \* pools (TLC configuration files cannot hold negative numbers, hence here)
 Big == Scope = "thorough"
-BalPool == CASE Family = "src"  -> IF Big THEN {-3, 0, 1, 2, 5, 9} ELSE {-3, 0, 2, 5}
+BalPool == CASE Family = "ill"  -> {0, 5}
+             [] Family = "src"  -> IF Big THEN {-3, 0, 1, 2, 5, 9} ELSE {-3, 0, 2, 5}
              [] Family = "dst"  -> {0, 5}
              [] Family = "prog" -> IF Big THEN {-3, 0, 2, 5, 9} ELSE {-3, 0, 2, 5}
-AmtPool == CASE Family = "src"  -> IF Big THEN {-1, 0, 1, 2, 3, 6, 8} ELSE {0, 1, 3, 6}
+AmtPool == CASE Family = "ill"  -> {0, 3}
+             [] Family = "src"  -> IF Big THEN {-1, 0, 1, 2, 3, 6, 8} ELSE {0, 1, 3, 6}
              [] Family = "dst"  -> IF Big THEN {0, 1, 2, 3, 5, 6, 7, 9} ELSE {0, 1, 3, 6, 7}
              [] Family = "prog" -> IF Big THEN {0, 2, 3, 6} ELSE {0, 3, 6}
-CapPool == CASE Family = "src"  -> {-1, 0, 2, 5}
+CapPool == CASE Family \in {"src", "ill"}  -> {-1, 0, 2, 5}
              [] Family = "dst"  -> IF Big THEN {-1, 0, 1, 2, 5} ELSE {-1, 0, 2, 5}
              [] Family = "prog" -> {2}
 OvdPool == CASE Family = "prog" -> {3} [] OTHER -> {0, 3}
@@ -52,6 +54,28 @@ ZeroFirst == {[k |-> "allot", it |-> <<[p |-> Por(0, 1), s |-> x], [p |-> Por(1,
 SrcFam1 == LeafFam \cup SeqOf(LeafFam, LeafFam) \cup CapOf(LeafFam) \cup AllotOf(LeafFam, LeafFam)
              \cup {[k |-> "seq", s |-> <<>>]} \cup Triples \cup ZeroFirst
 SrcFam2 == SrcFam1 \cup SeqOf(SrcFam1, LeafFam) \cup SeqOf(LeafFam, SrcFam1) \cup CapOf(SrcFam1)
+
+\* ---- the "ill" family: every member of the source family with ONE of its expressions (an account, a cap, an overdraft
+\*      bound) replaced by an expression of another type or by an undeclared variable
+Bads == {[k |-> "num", v |-> 42], [k |-> "var", name |-> "nope"], [k |-> "str", v |-> "s"]}
+RECURSIVE NExpr(_), ReplE(_,_,_), ReplList(_,_,_,_)
+\* number of replaceable expressions of a source tree, in textual order
+NExpr(s) == CASE s.k \in {"acct", "ovdu"} -> 1
+              [] s.k = "ovd" -> 2
+              [] s.k = "cap" -> 1 + NExpr(s.s)
+              [] s.k = "seq" -> IF s.s = <<>> THEN 0 ELSE NExpr(Head(s.s)) + NExpr([s EXCEPT !.s = Tail(s.s)])
+              [] s.k = "allot" -> IF s.it = <<>> THEN 0 ELSE NExpr(Head(s.it).s) + NExpr([s EXCEPT !.it = Tail(s.it)])
+\* the tree with its p-th expression replaced
+ReplList(xs, i, p, bad) == IF i > Len(xs) THEN xs
+   ELSE LET n == NExpr(xs[i]) IN IF p <= n THEN [xs EXCEPT ![i] = ReplE(xs[i], p, bad)] ELSE ReplList(xs, i + 1, p - n, bad)
+ReplE(s, p, bad) ==
+  CASE s.k \in {"acct", "ovdu"} -> [s EXCEPT !.e = bad]
+    [] s.k = "ovd" -> IF p = 1 THEN [s EXCEPT !.e = bad] ELSE [s EXCEPT !.b = bad]
+    [] s.k = "cap" -> IF p = 1 THEN [s EXCEPT !.c = bad] ELSE [s EXCEPT !.s = ReplE(s.s, p - 1, bad)]
+    [] s.k = "seq" -> [s EXCEPT !.s = ReplList(s.s, 1, p, bad)]
+    [] s.k = "allot" -> LET subs == [i \in 1..Len(s.it) |-> s.it[i].s]
+                            new == ReplList(subs, 1, p, bad) IN
+                        [s EXCEPT !.it = [i \in 1..Len(s.it) |-> [s.it[i] EXCEPT !.s = new[i]]]]
 
 DAcct == {[k |-> "acct", e |-> Acc(x)] : x \in {"x", "y"}}
 Kod0  == DAcct \cup {[k |-> "kept"]}
@@ -97,6 +121,7 @@ Init == /\ prog = <<>>
 Mk(s, d) == IF seed.all THEN SendAll(s, d) ELSE SendFix(seed.n, s, d)
 Pick == /\ si = 0
         /\ CASE Family = "src"  -> \E s \in SrcFamily : prog' = << Mk(s, PlainDst) >>
+             [] Family = "ill"  -> \E s \in SrcFam1 : \E p \in 1..NExpr(s) : \E bad \in Bads : prog' = << Mk(ReplE(s, p, bad), PlainDst) >>
              [] Family = "dst"  -> \E s \in {WorldSrc, [k |-> "acct", e |-> Acc("a")]}, d \in DstFamily : prog' = << Mk(s, d) >>
              [] Family = "prog" -> \E s1 \in ProgStmts, s \in SmallSrc, d \in SmallDst : prog' = << s1, Mk(s, d) >>
         /\ si' = 1 /\ UNCHANGED <<bal0, S, last, seed>>
